@@ -198,6 +198,13 @@ func init() {
 		Custom: func(cc *CheckCtx) {
 			for _, v := range []string{"30", "31"} {
 				for _, s := range v3Stages(v, `/post/spec$`) {
+					// C03 is the equality with the specification itself: the inner environmental stage
+					// runs on all 165,888 classes in both tiers (a seeded change that is wrong on 24 of
+					// them escaped the quick subset); C11 and C12 keep the subset in their quick tier
+					if s.Tier == "quick" {
+						continue
+					}
+					s.Tier = ""
 					cc.runStage(s)
 				}
 			}
@@ -395,6 +402,11 @@ func init() {
 			}
 			c11v4(cc)
 			c10v3(cc)
+			// "that function accepts the value": rating_accepts is stated with the shared scale
+			// predicate ratingClass; Rating itself is proved against it (C15's obligations) here too
+			for _, p := range []string{"30", "31", "40"} {
+				cc.runTask(Task{Pkg: p, Func: "Rating", Match: ``})
+			}
 		},
 		Trusted: trustedFP,
 		Assumptions: []string{
